@@ -10,20 +10,31 @@ Local Open Scope N_scope.
    recursive or not, with or without an event filter: the reader thread of the current code never
    raises (the model's only exceptional outcome, [Crash], is unreachable). *)
 Theorem C07_no_crash : forall (P : pcfg),
-  c_fix_ignored (pc_reader P) = true -> c_fix_simulate (pc_reader P) = true ->
+  c_fix_ignored (pc_reader P) = true -> c_fix_simulate (pc_reader P) = true -> c_fix_moveout (pc_reader P) = true ->
   forall w s0 h, pinit P w = Some s0 -> exists s' obs, prun P s0 h [] = Done (s', obs).
 Proof. exact no_crash. Qed.
 Print Assumptions C07_no_crash.
 
-(* The invariant behind it, exported: at every reachable state every live kernel watch and every
-   unread kernel event carries a descriptor the reader knows. *)
+(* The invariant behind it, exported: at every reachable state every live kernel watch carries a descriptor the reader
+   knows, an IN_IGNORED record that is still queued never refers to a live watch (the clean-up it triggers cannot
+   forget a live descriptor), and descriptors are never re-used.  (Before the repair of F10 the reader also had to know
+   the descriptor of every QUEUED record - it raised KeyError otherwise; now a record for a descriptor it has forgotten
+   is skipped: C07_unknown_descriptor_skipped.) *)
 Theorem C07_descriptors_known : forall (P : pcfg),
-  c_fix_ignored (pc_reader P) = true -> c_fix_simulate (pc_reader P) = true ->
+  c_fix_ignored (pc_reader P) = true -> c_fix_simulate (pc_reader P) = true -> c_fix_moveout (pc_reader P) = true ->
   forall w s0 h s' obs, pinit P w = Some s0 -> prun P s0 h [] = Done (s', obs) ->
   (forall x, In x (k_watches (p_k s')) -> In (kw_wd x) (map fst (pfw (p_r s')))) /\
-  okq (map fst (pfw (p_r s'))) (k_queue (p_k s')).
+  (forall e, In e (k_queue (p_k s')) -> Emitter.is_ignored (k_mask e) = true ->
+             forall x, In x (k_watches (p_k s')) -> kw_wd x <> k_wd e) /\
+  NoDup (map kw_wd (k_watches (p_k s'))).
 Proof. exact descriptors_known. Qed.
 Print Assumptions C07_descriptors_known.
+
+Theorem C07_unknown_descriptor_skipped : forall (P : pcfg), c_fix_moveout (pc_reader P) = true ->
+  forall t r k acc e, alookup N.eqb (k_wd e) (pfw r) = None ->
+  read_one_body (pc_reader P) t (r, k, acc) e = Done (r, k, acc).
+Proof. exact unknown_descriptor_skipped. Qed.
+Print Assumptions C07_unknown_descriptor_skipped.
 
 (* Root deletion: the kernel's IN_DELETE_SELF for the watched root is translated into exactly one
    DirDeleted(root) and a stop request; a stopped emitter produces nothing further. *)
@@ -46,7 +57,9 @@ Definition world0 : world :=
      w_next_ino := 3 |}.
 Definition cfg0 (fi fs_ : bool) (faults : list nat) : pcfg :=
   {| pc_reader := {| c_recursive := true; c_mask := WATCHDOG_ALL; c_root := Rt; c_fix_ignored := fi;
-                     c_fix_movein := true; c_fix_simulate := fs_; c_faults := faults |};
+                     c_fix_movein := true; c_fix_simulate := fs_;
+                     c_fix_moveout := fi && fs_;      (* the pinned configurations also pin the code before the repair of F10 *)
+                     c_faults := faults |};
      pc_full := false; pc_filter := None; pc_delay := 4 |}.
 
 Definition run0 (P : pcfg) (h : list action) : option N :=
@@ -86,7 +99,7 @@ Require Import WD.Model.PathTypes WD.Proofs.PathProofs WD.Proofs.CoverProofs WD.
    that descriptor - also in the stale-bookkeeping states of the known findings F10/F10b-d. *)
 Theorem C07_root_alive : forall (P : pcfg),
   c_root (pc_reader P) <> [] -> last_is_sep (c_root (pc_reader P)) = false ->
-  c_fix_ignored (pc_reader P) = true -> c_fix_simulate (pc_reader P) = true ->
+  c_fix_ignored (pc_reader P) = true -> c_fix_simulate (pc_reader P) = true -> c_fix_moveout (pc_reader P) = true ->
   forall w s0 h s obs,
   wf_fs w -> fs_names_ok (w_fs w) -> (forall o, In (AOp o) h -> op_ok P o) ->
   pinit P w = Some s0 -> prun P s0 h [] = Done (s, obs) ->
@@ -101,6 +114,7 @@ Print Assumptions C07_root_alive.
 (* ... and therefore every record the kernel delivers on that descriptor about a named entry (create, modify, delete,
    attrib, close of a file; delete/attrib of a sub-directory) is handed on under  root/<name> *)
 Theorem C07_root_probe : forall (C : cfg) w0 (w : world) r k acc m c n ns,
+  pend r = None ->
   alookup N.eqb w0 (pfw r) = Some (c_root C) ->
   is_moved_from m = false -> is_moved_to m = false -> Emitter.is_ignored m = false ->
   is_directory m && is_create m = false ->
@@ -110,9 +124,9 @@ Theorem C07_root_probe : forall (C : cfg) w0 (w : world) r k acc m c n ns,
 Proof. exact root_probe. Qed.
 Print Assumptions C07_root_probe.
 
-(* non-vacuity: a history that produces the stale state of F10 (directory moved out, name re-used, change outside)
-   meets every hypothesis of C07_root_alive, and in its final state a watch of the reader points to a path that
-   does not exist any more *)
+(* non-vacuity: the history that used to produce the stale state of F10 (directory moved out, name re-used, change
+   outside, old name removed) meets every hypothesis of C07_root_alive; with the repair every path the reader knows
+   at the end exists (the departed directory was forgotten at the first record after its IN_MOVED_FROM) *)
 Definition hx : list action :=
   [AOp (Mkdir (sub pR 100)); ARead 9; AOp (Rename (sub pR 100) (sub pO 102)); ARead 9;
    AOp (Mkdir (sub pR 100)); AOp (Touch (sub (sub pO 102) 120)); ARead 9; AOp (Rmdir (sub pR 100)); ARead 9].
@@ -120,7 +134,7 @@ Example C07_root_alive_nonvacuous :
   wf_fs w0 /\ fs_names_ok (w_fs w0) /\ (forall o, In (AOp o) hx -> op_ok (Px true) o) /\
   match pinit (Px true) w0 with
   | Some s0 => match prun (Px true) s0 hx [] with
-               | Done (s, _) => existsb (fun x : N * bytes => negb (fexists (snd x) (w_fs (p_world s)))) (pfw (p_r s))
+               | Done (s, _) => forallb (fun x : N * bytes => fexists (snd x) (w_fs (p_world s))) (pfw (p_r s))
                | Crash _ => false
                end
   | None => false
